@@ -49,6 +49,11 @@ def gen_machine(rng, hard=True):
             exits[s] = [(rng.choice(ACTIONS), rng.choice(GUARDS) if rng.random() < 0.5 else None) for _ in range(rng.randint(1, 2))]
         if rng.random() < 0.3:
             flags[s] = [rng.choice(FLAGS)]
+    # every machine has a state whose first entry (exit) line is guarded and whose second is not: the lines of one state
+    # are independent of each other
+    s1, s2 = rng.choice(states), rng.choice(states)
+    entries[s1] = [(rng.choice(ACTIONS), rng.choice(GUARDS)), (rng.choice(ACTIONS), None)]
+    exits[s2] = [(rng.choice(ACTIONS), rng.choice(GUARDS)), (rng.choice(ACTIONS), None)]
     return {"regions": regions, "rows": rows, "term": sorted(term), "entries": entries, "exits": exits, "flags": flags,
             "seed": rng.random()}
 
